@@ -102,7 +102,35 @@ def _factory_products(factory: ast.FunctionDef, call: ast.Call) -> Optional[Tupl
     for n in ast.walk(factory):
         if isinstance(n, ast.Name) and isinstance(n.ctx, ast.Store):
             stores[n.id] = stores.get(n.id, 0) + 1
-    for st in factory.body:
+    # `if high: def fget… else: def fget…` with the test decided by the call's constant arguments: the taken branch is the body
+    body = []
+
+    def decided(t: ast.expr):
+        t2 = _Subst(dict(env), set()).visit(copy.deepcopy(t))
+        try:
+            return bool(ast.literal_eval(t2))
+        except Exception:
+            if isinstance(t2, ast.UnaryOp) and isinstance(t2.op, ast.Not):
+                v = decided(t2.operand)
+                return None if v is None else not v
+            return None
+
+    def flatten(stmts):
+        for st in stmts:
+            if isinstance(st, ast.If):
+                v = decided(st.test)
+                if v is None:
+                    body.append(st)
+                else:
+                    flatten(st.body if v else st.orelse)
+            else:
+                body.append(st)
+    flatten(factory.body)
+    # inner names must now be defined once
+    dnames = [st.name for st in body if isinstance(st, ast.FunctionDef)]
+    if len(dnames) != len(set(dnames)):
+        return None
+    for st in body:
         if isinstance(st, ast.FunctionDef):
             inner[st.name] = st
         elif isinstance(st, ast.Assign) and len(st.targets) == 1 and isinstance(st.targets[0], ast.Name) and stores.get(st.targets[0].id) == 1:
